@@ -262,6 +262,24 @@ def rule_r1(ctx):
             if bounded and not left:
                 bad = None
         if bad is None and not union and first:
+            # no descent was SEEN.  When the argument of the recursive call comes out of another call
+            # (a generator that hands out the sub-nodes, a helper), where it descends is not visible
+            # here: no verdict instead of "calls itself with the same argument"
+            from_call = False
+            for fqx in comp:
+                fix = cg.funcs[fqx]
+                for callx, tgtx in cg.call_sites[fqx]:
+                    if getattr(tgtx, "fq", None) not in comp:
+                        continue
+                    arg_names = {x.id for a in callx.args for x in ast.walk(a) if isinstance(x, ast.Name)}
+                    for n in ast.walk(fix.node):
+                        if isinstance(n, (ast.For, ast.comprehension)) and isinstance(n.iter, ast.Call) and any(isinstance(x, ast.Name) and x.id in arg_names for x in ast.walk(n.target)):
+                            from_call = from_call or (fix, callx)
+                        if isinstance(n, ast.Assign) and isinstance(n.value, ast.Call) and any(isinstance(x, ast.Name) and x.id in arg_names for t in n.targets for x in ast.walk(t)):
+                            from_call = from_call or (fix, callx)
+            if from_call:
+                fix, callx = from_call
+                raise AnalysisError(f"C17-R1: {fix.where()} line {callx.lineno}: the argument of the recursive call is handed out by another call (generator / helper): through which field the recursion descends is not visible to this rule")
             bad = (first[0], first[1], "no call of the cycle descends into a sub-node of its argument")
         if bad:
             fq, call, why = bad
